@@ -85,6 +85,7 @@ type Want struct {
 	Raw        bool // keep the raw output stream of each call
 	HistAfter  bool // record contents of all history sources after each call
 	SkipScreen bool // leave the emulator out of the state hash
+	From       int  // mode-2 recording starts at the wait that consumes answer index From
 }
 
 // Job is one execution: a fresh shell, one or more Readline calls, a plan of answers.
